@@ -26,6 +26,8 @@ def run(ctx):
                                         "moves_of_held_values": st["consumptions"], "drops_checked": st["drops_checked"],
                                         "variant_refinements": st["refinements"], "verdict": "no held value is dropped, overwritten or leaked" if not fs else "violation"})
             res.add("C01.LIN", st["tracked_locals"], fs)
+    import controls
+    controls.run(ctx, res, "C01", lambda crate, b, v, bs: lin.analyse(v, {"deserr", "deserr_controls"})[0])
     res.analysed.update({"bodies": bodies, "bodies_with_error_carrying_locals": tracked_bodies, "lib_deserr_impls": roots_lib})
     res.floor("Deserr impls in the library (default features)", roots_lib, 43)
     res.floor("bodies with error-carrying locals", tracked_bodies, 100)
